@@ -496,7 +496,8 @@ def fixture_source(pkg, beh):
         if beh[0] == 'echo':
             body = 'return json.dumps({"subType": sub, "version": ver, "data": bytes(data).hex()})'
         elif beh[0] == 'raises':
-            body = 'raise Exception(%r)' % beh[1]
+            # an empty message = an exception raised WITHOUT arguments (bare assert, `raise NotImplementedError`): str(e) == '' and e.args == ()
+            body = ('raise Exception(%r)' % beh[1]) if beh[1] else 'raise NotImplementedError()'
         elif beh[0] == 'raises_import':
             body = 'raise ImportError(%r)' % beh[1]
         elif beh[0] == 'none':
